@@ -93,6 +93,36 @@ pub fn corr_card(ctx: &mut Ctx) {
             ctx.oracle_failure(serde_json::json!({"kind":"impl_violates_property","what":"cardinality estimate decreased after a merge","params":format!("{:?}",p)}));
         }
     }
+    // very large registers: u32 registers above 2^31 (b = 1 + 2^-27) — the estimate must stay positive, finite, monotone,
+    // and the two estimators must agree; and raw u32 register vectors with values around 2^31 and u32::MAX
+    {
+        use crate::ssk::new32;
+        let b = 1.0 + (2.0f64).powi(-27);
+        let p = (b, 256u64, 20.0f64, (u32::MAX - 1) as u64);
+        ctx.begin_case("card huge u32 registers b=1+2^-27 m=256");
+        ctx.mark_nontrivial();
+        ctx.count("registers above 2^31");
+        let mut s = new32(p);
+        let mlej = MleJaccard::from(SetSketchParams::new(p.0, p.1, p.2, p.3));
+        let mut last = 0.0f64;
+        let n = ctx.n(6000, 40000);
+        for x in 0..n {
+            s.sketch(&(x.wrapping_mul(0x9e37_79b9_7f4a_7c15))).unwrap();
+            if x % 250 == 0 || x + 1 == n {
+                let (card, rsd) = s.get_cardinal_stats();
+                let maxreg = s.get_signature().iter().cloned().max().unwrap_or(0);
+                let par = mlej.get_cardinal_estimate(s.get_signature());
+                if !(card >= last) || !card.is_finite() || !rsd.is_finite() || ((par - card) / card).abs() > 1e-9 {
+                    ctx.oracle_failure(serde_json::json!({"kind":"impl_violates_property","what":"cardinality estimate with u32 registers above 2^31: decreased / not finite / estimators disagree","b":b,"m":256,
+                        "items":x + 1,"largest_register":maxreg,"before":last,"after":card,"parallel":par}));
+                    break;
+                }
+                last = card;
+            }
+        }
+        let maxreg = s.get_signature().iter().cloned().max().unwrap_or(0);
+        ctx.count(if maxreg > (1u32 << 31) { "largest register above 2^31 reached" } else { "largest register stayed below 2^31" });
+    }
     // adversarial register vectors through the parallel estimator with different pool sizes
     for threads in [1usize, 2, 3, 8, 16] {
         let pool = rayon::ThreadPoolBuilder::new().num_threads(threads).build().unwrap();
